@@ -50,5 +50,34 @@ def rotate (S : Shape K) (axis : Nat) (c s : K) : Shape K :=
   let back := o.map (fun x => 0 - (0 - x))
   ((S.mapPts (translatePt (o.map (fun x => 0 - x)))).mapPts (rotatePt axis c s)).mapPts (translatePt back)
 
+/-- one call of the inner `rotate_x / rotate_y / rotate_z (ncs, opt, alpha)` of `operations.rotate`: the three steps of
+    `rotate` about a GIVEN point `o` (`rotate S axis c s = rotateAt S (startPoint S) axis c s` by definition) -/
+def rotateAt (S : Shape K) (o : List K) (axis : Nat) (c s : K) : Shape K :=
+  let back := o.map (fun x => 0 - (0 - x))
+  ((S.mapPts (translatePt (o.map (fun x => 0 - x)))).mapPts (rotatePt axis c s)).mapPts (translatePt back)
+
+/-! ### containers (`multi.CurveContainer / SurfaceContainer / VolumeContainer`): `for g in geom` visits the elements
+    in order.  A container is the list of its elements. -/
+
+/-- `operations.translate` on a container: every element is translated.  `none` = the `GeomdlException` of the
+    input check for an EMPTY container (its `dimension` is 0, so no vector has the right number of components;
+    the empty vector is refused before that).  The check `len(vec) == dimension` for a non-empty container is
+    the caller's guard (as for `translate`). -/
+def translateAll (Ss : List (Shape K)) (vec : List K) : Option (List (Shape K)) :=
+  if Ss.isEmpty then none else some (Ss.map (fun S => translate S vec))
+
+/-- `operations.scale` on a container: every element is scaled (an empty container stays empty). -/
+def scaleAll (Ss : List (Shape K)) (m : K) : List (Shape K) := Ss.map (fun S => scale S m)
+
+/-- `operations.rotate` on a container: ONE origin, the evaluated start point of the FIRST element
+    (`geom[0].evaluate_single(domain starts)`), then every element is rotated about that point.
+    `none` = the `IndexError` of `geom[0]` for an empty container. -/
+def rotateAll (Ss : List (Shape K)) (axis : Nat) (c s : K) : Option (List (Shape K)) :=
+  match Ss with
+  | [] => none
+  | S0 :: _ =>
+    let origin := startPoint S0
+    some (Ss.map (fun S => rotateAt S origin axis c s))
+
 end
 end Geomdl
